@@ -15,7 +15,7 @@ def sh(cmd, cwd=None, env=None):
   return p.returncode, p.stdout + p.stderr
 
 
-res_path = '/verif/selftest/regressions/results.json'
+res_path = os.environ.get('REGRESS_OUT', '/verif/selftest/regressions/results.json')
 results = json.load(open(res_path)) if os.path.exists(res_path) and only else {}
 for patch in sorted(glob.glob('/verif/selftest/regressions/rev*.diff')):
   name = os.path.basename(patch)[:-5]
